@@ -199,7 +199,9 @@ class World(object):
     def service_for(self, dest, dev):
         d = dest.rstrip(b'\0')
         if d.startswith(b'shell:'):
-            t = d[6:].decode()
+            t = d[6:].decode('utf8', 'replace')
+            if t not in self.replies:
+                return simdev.ShellService([])       # not a command of this world (e.g. a destination garbled by interleaved writes): runs, says nothing
             return simdev.ShellService([payload_of(t, i) for i in self.replies[t][0]])
         if d == b'reboot:':
             return simdev.ShellService([], close=False)
@@ -292,7 +294,7 @@ class World(object):
         return dict(
             pc={t: self.sched.th[t].at for t in self.threads}, lid=dict(self.lids), nid=self.device._local_id,
             tlock=self.io._transport_lock.holder or 'free',
-            store=sorted([a0, a1, [c.decode() for c, _ in q._queue]] for a1, m in st.items() for a0, q in m.items()),
+            store=sorted([a0, a1, [c.decode() for c, _ in getattr(q, '_queue', q)]] for a1, m in st.items() for a0, q in m.items()),
             live=sorted([a0, a1] for (a0, a1) in getattr(self.io._packet_store, '_live', ())),
             d2h=[[f['pk']['cmd'], wire.unlimbs(f['pk']['a0']), wire.unlimbs(f['pk']['a1'])] for f in self.dev.wire],
             h2d=[[h['cmd'], h['a0'], h['a1']] for h in self.core.h2d_q],
